@@ -121,7 +121,7 @@ def run(run, tier, loadcfg):
             continue
         cx = Ctx(fx_)
         from rules import C06
-        C06.check_used(run, cx, cfg, [b for b in fx_.bodies.values() if b['crate'] == 'dasp_signal' and any(x in b['path'] for x in ('BranchRcA', 'BranchRcB', 'BranchRefA', 'BranchRefB', 'Signal::fork', 'dasp_signal::Fork'))], 5)
+        C06.check_used(run, cx, cfg, [b for b in fx_.bodies.values() if b['crate'] == 'dasp_signal' and any(x in b['path'] for x in ('BranchRcA', 'BranchRcB', 'BranchRefA', 'BranchRefB', 'Signal::fork', 'dasp_signal::Fork'))], 5, handed=C06.B)
         si, ri, pi = shared_fields(cx)
         if None in (si, ri, pi):
             run.fail('fork.shared-state', SHARED, cfg, 'ForkShared { signal, ring_buffer, pending } not found')
